@@ -66,11 +66,12 @@ def read(text):
 # ---------------------------------------------------------------------------- small models
 _GRAMMAR = """
 Model: 'model' name=ID a*=T b*=U;
-T: 'T' name=ID ('{' a*=T b*=U '}')?;
-U: 'U' name=ID ('{' a*=T b*=U '}')?;
+T: 'T' name=ID ('{' a*=T b*=U \xe9l*=\xc9c '}')?;
+U: 'U' name=ID ('{' a*=T b*=U \xe9l*=\xc9c '}')?;
+\xc9c: 'E' name=ID ('{' a*=T '}')?;
 """
 _MODELS = [
-    "model n T n { T m { U n } U n { T n { T m } } } T m U n { T m U m { U n } } U m",
+    "model n T n { T m { U n E m } U n { T n { T m } E n { T m } } } T m U n { T m U m { U n } } U m",
 ]
 _LOOKUPS = [["n"], ["m"], ["n", "m"], ["m", "n"], ["x"]]
 _state = {}
@@ -85,7 +86,7 @@ def _models():
         for mi, m in enumerate(ms):
             def walk(o, path):
                 objs.append((o, path))
-                for attr in ("a", "b"):
+                for attr in ("a", "b", "\xe9l"):
                     for i, c in enumerate(getattr(o, attr, []) or []):
                         walk(c, path + [f"{attr}{i}"])
             walk(m, [f"M{mi}"])
@@ -136,7 +137,7 @@ def run_case(text, textsp):
     if t2 is not None and p2 == p1:
         e1, e2 = evaluate(t1), evaluate(t2)
         obs["eval_same"] = e1 == e2
-        obs["found"] = sum(1 for x in e1 if x != "-")
+        obs["found"] = sum(1 for x in e1 if x != "-" and not x.startswith("EXC"))
     return obs
 
 
